@@ -204,6 +204,11 @@ class ComplexType(AnyType):
             if allow_none and len(elements) == 0 and len(attributes) == 0:
                 return None
 
+            # A nilled element (xsi:nil) has no content: its value is None,
+            # as it is for an element of a simple type
+            if len(elements) == 0 and attributes.get(xsi_ns("nil")) in ("true", "1"):
+                return None
+
             # Parse elements. These are always indicator elements (all, choice,
             # group, sequence)
             assert len(self.elements_nested) < 2
